@@ -64,6 +64,8 @@ def p_utf8(ip, args, kw, ctx):
 def p_valid_hhmm(ip, args, kw, ctx):
     from .timemodels import TimeStr
     s = args[0]
+    if isinstance(s, Seq) and s.tag and s.tag[0] == "HHMM":
+        return True
     if isinstance(s, str):
         from contracts_native import valid_hhmm   # never reached in practice
         return valid_hhmm(s)
@@ -78,6 +80,8 @@ def p_hh_of(ip, args, kw, ctx):
     s = args[0]
     if isinstance(s, TimeStr):
         return s.hv
+    if isinstance(s, Seq) and s.tag and s.tag[0] == "HHMM":
+        return s.tag[1]
     if isinstance(s, str):
         return int(s.split(":")[0])
     from .interp import Unsupported
@@ -89,6 +93,8 @@ def p_mm_of(ip, args, kw, ctx):
     s = args[0]
     if isinstance(s, TimeStr):
         return s.mv
+    if isinstance(s, Seq) and s.tag and s.tag[0] == "HHMM":
+        return s.tag[2]
     if isinstance(s, str):
         return int(s.split(":")[1])
     from .interp import Unsupported
@@ -180,6 +186,17 @@ def p_implies(ip, args, kw, ctx):
     return simp(z3.Implies(a, zb(b)))
 
 
+def p_days_of_mask(ip, args, kw, ctx):
+    from .schedmodel import MaskSet
+    from .sym import PySet
+    mask, cls = args
+    table = _spec_table(ip, "DAY_BIT").d
+    bits = {d: table[d.name] for d in cls}
+    if not isz(mask):
+        return PySet([d for d in cls if (mask // bits[d]) % 2 == 1])
+    return MaskSet(mask, cls, bits)
+
+
 def _le(n):
     def prim(ip, args, kw, ctx):
         from .sym import int_bytes
@@ -187,6 +204,24 @@ def _le(n):
         if not isz(v):
             return bytes([(v >> (8 * k)) & 255 for k in range(n)])
         return Seq('bytes', [Elems(int_bytes(v, n))])
+    return prim
+
+
+def _lev(n):
+    def prim(ip, args, kw, ctx):
+        from .sym import le_value
+        from .interp import PyExc
+        from .sym import ExcVal
+        b = args[0]
+        if isinstance(b, bytes):
+            if len(b) < n:
+                raise PyExc(ExcVal("IndexError", ()))
+            return int.from_bytes(b[:n], "little")
+        sq = seqops.concretize(Seq.of(b), ctx)
+        ts = []
+        for i in range(n):
+            ts.append(ip.seq_index(sq, i, ctx))
+        return le_value(ts)
     return prim
 
 
@@ -266,5 +301,5 @@ def install(ip):
     ip.spec_prims.update({
         "crc16": p_crc16, "is_hex": p_is_hex, "amps_of": p_amps_of, "tenths": p_tenths, "utf8": p_utf8,
         "valid_hhmm": p_valid_hhmm, "hh_of": p_hh_of, "mm_of": p_mm_of,
-        "le16": _le(2), "le32": _le(4), "pick": p_pick, "all_of": p_all_of, "implies": p_implies, "chr_digit": p_chr_digit, "today_epoch": p_today_epoch, "local_hhmm_of": p_local_hhmm_of, "timestamp_of": p_timestamp_of, "decode_padded_utf8": p_decode_padded_utf8, "day_bit": p_day_bit, "is_member": p_is_member, "pairwise_distinct": p_pairwise_distinct,
+        "le16": _le(2), "le32": _le(4), "le16v": _lev(2), "le32v": _lev(4), "pick": p_pick, "all_of": p_all_of, "days_of_mask": p_days_of_mask, "implies": p_implies, "chr_digit": p_chr_digit, "today_epoch": p_today_epoch, "local_hhmm_of": p_local_hhmm_of, "timestamp_of": p_timestamp_of, "decode_padded_utf8": p_decode_padded_utf8, "day_bit": p_day_bit, "is_member": p_is_member, "pairwise_distinct": p_pairwise_distinct,
     })
